@@ -283,6 +283,11 @@ struct atomic {
     atomic(const atomic&) = delete;
     atomic& operator=(const atomic&) = delete;
 
+    // harness-only: forget all history (used for objects that outlive a case, e.g. static trip lines)
+    void vrt_reset(T x) {
+        v = x; delete m.hist; delete m.seen; m.hist = nullptr; m.seen = nullptr;
+        m.rel.clear(); m.has_rel = false; m.rel_head = -1; m.last_sc = 0;
+    }
     bool weak_mode() const { return ::vrt::rt().active && ::vrt::rt().cur && ::vrt::rt().spec->weak; }
     void ensure_hist() const {
         if (!m.hist) {
